@@ -232,6 +232,17 @@ func withWatchdog(what string, f func()) (proof string, ok bool) {
 	if proof != "" {
 		return what + " did not return within " + watchdog.String() + "\n" + proof, false
 	}
+	if _, st, _ := engine.GoroutineState("life.lifeCall"); st != "" {
+		// the call is still inside; is somebody it waits for looping forever?
+		if sp := engine.SpinProof(); sp != "" {
+			select {
+			case <-done:
+				return "", true
+			default:
+				return what + " did not return within " + watchdog.String() + "; " + sp, false
+			}
+		}
+	}
 	select {
 	case <-done:
 		return "", true
